@@ -134,6 +134,28 @@ CLAIMED = {
 }
 PENDING_REASON = "check not built yet in this round (work in progress; design in DESIGN.md section 5)"
 
+# functions whose Lean definition is regenerated from the Python source on every run (tools/py2lean.py) and proved equal to the model
+PY_TIE = {
+ "C01": "the five combine functions and single_azimuth",
+ "C02": "the window kernels of the six window operators (inner loop bodies of the numba kernels)",
+ "C03": "the Nyquist guard check_nyquist_frequency",
+ "C04": "single_azimuth and SeismicRecording3C.orient_sensor_to (rotation and orientation normalisation, helper methods inlined)",
+ "C05": "the distribution pre/post transforms and _nth_std_factory",
+ "C06": "the accept decision and the stopping rule of the rejection loop",
+ "C11": "the distribution pre/post transforms and _nth_std_factory",
+ "C14": "the two distribution conversions of montecarlo_fn",
+ "C16": "the threshold chain, reliability criteria i-iii and clarity criteria iii-vi",
+ "C17": "the normalisation chain of the one-sided PSD",
+}
+for pid, what in PY_TIE.items():
+    c = CLAIMED[pid]
+    c["text"] += (" Source translator: tools/py2lean.py symbolically executes the Python source of " + what + " on every run and rewrites "
+                  "Generated/Py*.lean; bridge theorems (Bridge/Py*.lean) prove the translated definitions equal to the model functions for all real arguments "
+                  "(an untranslatable source makes the obligation trivial and is recorded as t_tie: unavailable).")
+    c["technique"] += " + source-to-Lean translator (py2lean) with equality theorems"
+CLAIMED["C01"]["note"] = ("Trusted: numpy rfft = DFT (cross-checked on every case), np.percentile (modelled by its 'linear' contract). Scale invariance, the a/b law and the closed form for proportional "
+                          "components are composed through the whole chain for every method (frequency-domain combinations, single azimuth, RotDpp for positive smoothed spectra, diffuse field).")
+
 checks = []
 for pid in ids:
     if pid in CLAIMED:
@@ -156,7 +178,7 @@ manifest = dict(
                baseline_off_cmd="cd /repo && /venv/bin/python -m pytest -ra -q -p no:cacheprovider --timeout=900 --continue-on-collection-errors",
                source_commits=[], add_only=True),
     engines=[dict(name="lean4+correspondence", path="lean/ harness/ tools/", serves_properties=sorted(CLAIMED),
-                  kind_free_text="Lean 4 model + theorems (lake), native driver hvsrdrv, Python differential harness, ast table extractor")],
+                  kind_free_text="Lean 4 model + theorems (lake), native drivers, Python differential harness, ast table extractor, source-to-Lean translator (tools/py2lean.py)")],
     checks=checks,
     notes="See DESIGN.md. Exit code 2 = infrastructure failure/timeouts, never a violation.",
     not_applicable=[dict(property_id=p, reason=PENDING_REASON) for p in ids if p not in CLAIMED],
